@@ -100,6 +100,10 @@ def run_batch(sim_name, prop, tier, seed, stratum, indices, hash_seed="0", focus
                                     "ops": res.ops, "op_index": op_i,
                                     "batch_first": indices[0], "stratum": stratum,
                                     "hash_seed": hash_seed})
+        if focus is None and len(unknown) >= 3 and not core.CENSUS:
+            # enough to report; do not spend the batch's wall budget on more of the same
+            stats["batches_cut_short_after_violations"] += 1
+            break
         if len(samples) < 2 and len(res.ops) >= 2:
             samples.append({"stratum": stratum, "run_index": idx, "config": cfg,
                             "ops": res.ops[:12], "events": res.events[:12]})
@@ -108,7 +112,7 @@ def run_batch(sim_name, prop, tier, seed, stratum, indices, hash_seed="0", focus
         "stats": dict(stats), "digests": digests,
         "sigs": {k: sorted(v) for k, v in sigs.items()},
         "known": known_hits, "unknown": unknown, "other": dict(other),
-        "samples": samples, "ops": n_ops, "runs": len(indices),
+        "samples": samples, "ops": n_ops, "runs": len(digests),
         "census": dict(census), "census_w": census_w,
     }
 
